@@ -1,4 +1,5 @@
 """Site and shape scans (side conditions that are syntactic facts about /repo), run through vx-extract's syn parse."""
+import re
 import vxlib
 from vxlib import Machinery
 
@@ -92,6 +93,82 @@ def _s8():
                    "a RevocationPair is constructed by struct literal only inside TryFrom<UncheckedRevocationSecret>::try_from (which computes the lock from the secret)")
 
 
+def _shapes(files):
+    out = vxlib.run_extract([], [{"id": "s", "kind": "shape", "name": "", "files": files}])
+    s = out["scans"][0]
+    if not s["ok"]:
+        raise Machinery("scan failed: %s" % s["error"])
+    return {(sh["name"]): sh for sh in s["shapes"]}
+
+
+ROUTED = [
+    # (type, unchecked twin or primitive, file)
+    ("PedersenParameters", "UncheckedPedersenParameters"),
+    ("SecretKey", "UncheckedSecretKey"),
+    ("PublicKey", "UncheckedPublicKey"),
+    ("Signature", "UncheckedSignature"),
+    ("Nonce", "UncheckedNonce"),
+    ("RevocationPair", "UncheckedRevocationPair"),
+    ("Balance", "u64"),
+]
+
+
+@scan("serde_routing")
+def _routing():
+    sh = _shapes(ZC_FILES + ZA_FILES)
+    problems = []
+    for ty, twin in ROUTED:
+        s = sh.get(ty)
+        if s is None:
+            problems.append("%s: type not found" % ty)
+            continue
+        if "Deserialize" not in s["derives"]:
+            problems.append("%s: no Deserialize derive" % ty)
+        want = 'try_from="%s' % twin
+        if not any(want in a.replace(" ", "") for a in s["serde_attrs"]):
+            problems.append("%s: serde attributes %s do not route decoding through try_from = \"%s\"" % (ty, s["serde_attrs"], twin))
+        if not s["all_fields_private"]:
+            problems.append("%s: has a public field (invariant could be bypassed by construction)" % ty)
+        t = sh.get(twin)
+        if twin != "u64":
+            if t is None:
+                problems.append("%s: twin %s not found" % (ty, twin))
+            else:
+                def norm(fs):
+                    return [(n, re.sub(r"Unchecked", "", ty_), sorted(a)) for n, ty_, a in fs]
+                if norm(s["fields"]) != norm(t["fields"]):
+                    problems.append("%s and %s differ in fields/order/codecs: %s vs %s" % (ty, twin, s["fields"], t["fields"]))
+    return {"ok": not problems, "what": "every invariant-bearing Deserialize type routes decoding through its validator (serde try_from), has only private fields, and its Unchecked twin mirrors its fields, order and codecs",
+            "detail": "; ".join(problems) if problems else "%d types routed: %s" % (len(ROUTED), ", ".join(t for t, _ in ROUTED))}
+
+
+STAGE_TYPES = ["Requested", "Inactive", "Ready", "Started", "Locked", "State", "CloseState", "CloseStateSignature", "PayToken", "BlindingFactors",
+               "CloseStateBlindingFactor", "PayTokenBlindingFactor", "RevocationLockBlindingFactor", "RevocationLock", "RevocationSecret", "ChannelId",
+               "MerchantBalance", "CustomerBalance", "BlindingFactor", "Signature", "Nonce", "RevocationPair", "Balance"]
+
+
+@scan("customer_state_shapes")
+def _stage_shapes():
+    sh = _shapes(ZC_FILES + ZA_FILES)
+    problems = []
+    bad_words = ("skip", "default", "flatten", "rename", "alias", "other", "tag", "untagged", "borrow", "getter", "remote", "from=", "into=")
+    for ty in STAGE_TYPES:
+        s = sh.get(ty)
+        if s is None:
+            problems.append("%s: type not found" % ty)
+            continue
+        for d in ("Serialize", "Deserialize"):
+            if d not in s["derives"]:
+                problems.append("%s: missing derive(%s)" % (ty, d))
+        attrs = list(s["serde_attrs"]) + [a for _, _, fa in s["fields"] for a in fa]
+        for a in attrs:
+            a2 = a.replace(" ", "")
+            if any(w in a2 for w in bad_words) and "try_from=" not in a2:
+                problems.append("%s: serde attribute %s changes the stored shape" % (ty, a))
+    return {"ok": not problems, "what": "the five customer stage structs and every type they contain derive both Serialize and Deserialize and carry no skip/default/flatten/rename attribute",
+            "detail": "; ".join(problems) if problems else "%d types checked" % len(STAGE_TYPES)}
+
+
 def run_scans(pid, names):
     res = []
     for n in names:
@@ -108,3 +185,5 @@ if __name__ == "__main__":
     for n in (sys.argv[1:] or sorted(SCANS)):
         r = SCANS[n]()
         print(n, "OK" if r["ok"] else "FAIL", r["detail"])
+
+
